@@ -42,7 +42,11 @@ def run(prop, tier):
             for side in ('lhs', 'rhs'):
                 progs.setdefault(json.dumps(v[side], sort_keys=True), v[side])
         keys = list(progs)
-        obs = dict(zip(keys, pipeline.observe_all([progs[k] for k in keys])))
+        # observation modes (harness/observe.py): plain / touch / index-first -
+        # the two sides of a law are often observed in different modes
+        modes = {k: j % 3 for j, k in enumerate(keys)}
+        obs = dict(zip(keys, pipeline.observe_all([progs[k] for k in keys],
+                                                  touch=[modes[k] for k in keys])))
         records = [{'id': i + 1, 'law': v['law'], 'level': v['level'], 'lhs': v['lhs'], 'rhs': v['rhs'],
                     'ol': obs[json.dumps(v['lhs'], sort_keys=True)],
                     'or': obs[json.dumps(v['rhs'], sort_keys=True)]} for i, v in enumerate(insts)]
@@ -72,7 +76,9 @@ def run(prop, tier):
             res.violation(f'{rec["law"]} ({rec["level"]}): {clause}: {pipeline.short(rec["lhs"])}  ~  '
                           f'{pipeline.short(rec["rhs"])}',
                           {'family': 'laws', 'law': rec['law'], 'level': rec['level'], 'lhs': rec['lhs'],
-                           'rhs': rec['rhs'], 'ol': rec['ol'], 'or': rec['or'], 'verdict': [status, clause]})
+                           'rhs': rec['rhs'], 'ol': rec['ol'], 'or': rec['or'], 'verdict': [status, clause],
+                           'modes': [modes[json.dumps(rec['lhs'], sort_keys=True)],
+                                     modes[json.dumps(rec['rhs'], sort_keys=True)]]})
             if len(res.violations) >= 25:
                 break
         elif inst['mv'][0] == 'viol':
@@ -93,7 +99,8 @@ def replay(prop, path):
     from .observe import observe
     rp = json.load(open(path))
     rec = {'id': 1, 'law': rp['law'], 'level': rp['level'], 'lhs': rp['lhs'], 'rhs': rp['rhs'],
-           'ol': observe(rp['lhs']), 'or': observe(rp['rhs'])}
+           'ol': observe(rp['lhs'], touch=rp.get('modes', [0, 0])[0]),
+           'or': observe(rp['rhs'], touch=rp.get('modes', [0, 0])[1])}
     v, _ = pipeline.validate_records([rec], module='LawsTrace.tla', cfg='LawsTrace.cfg')
     print(rp['law'], pipeline.short(rp['lhs']), '~', pipeline.short(rp['rhs']), v[1]['C16'])
     return 1 if v[1]['C16'][0] == 'viol' else 0
